@@ -414,7 +414,9 @@ func registerModels(P *Program) {
 		return nil, true
 	}
 	m["runtime.NumCPU"] = func(ex *Exec, fn *ssa.Function, args []Value) (Value, bool) { return smt.I64(4), true }
-	m["runtime.GOMAXPROCS"] = func(ex *Exec, fn *ssa.Function, args []Value) (Value, bool) { return smt.I64(4), true }
+	m["runtime.GOMAXPROCS"] = func(ex *Exec, fn *ssa.Function, args []Value) (Value, bool) {
+		return smt.I64(int64(ex.Ob.Param("procs", 4))), true
+	}
 	registerExtraModels(P)
 }
 
